@@ -84,9 +84,9 @@ def main():
     # corpus: the boundary walk of the non-vacuity example and a refused-then-wait sequence
     cases.append({"kind": "cache", "n": 1, "cutoff": 10, "calls": [("1.2.3.4", 0), ("1.2.3.4", 9), ("1.2.3.4", 18), ("1.2.3.4", 28), ("::1", 29), ("1.2.3.4", 30)]})
     cases.append({"kind": "cache", "n": 0, "cutoff": 10 ** 9, "calls": [("1.2.3.4", 0), ("1.2.3.4", 0)]})
-    for _ in range(1200 if quick else 20000):
+    for _ in range(1200 if quick else 8000):
         cases.append(gen_cache_case(rng, c.tier))
-    for _ in range(500 if quick else 6000):
+    for _ in range(500 if quick else 2500):
         cases.append(gen_server_seq(rng, c.tier))
 
     rp = P.replay_tokens()
